@@ -5,6 +5,7 @@ import Heathcliff.Proofs.GenWord
 import Heathcliff.Proofs.GenWord2
 import Heathcliff.Proofs.GenWord3
 import Heathcliff.Proofs.GenWord4
+import Heathcliff.Proofs.GenWord5
 
 /- Property theorems only (statements verbatim; proofs are the helper lemmas of Heathcliff/Proofs). -/
 namespace HC.C08
@@ -250,5 +251,32 @@ example : ∃ m, Modulus.mk? 2305843009213693951 = .ok m ∧ m.WF :=
 /-! ### translator tie, phase 3 (Proofs/GenWord4.lean): `negate_uint` (src/util/basic.rs) generated into Gen/WordFns.lean equals
      `negateUint` (including the out-of-bounds panics when the operand is shorter than the result or the result is empty) -/
 theorem gen_negate_uint_eq (a r : List Nat) : GenW.negate_uint a r = negateUint a r.length := HC.gy_negate_uint_eq a r
+
+/-! ### translator tie, phase 4d (Proofs/GenWord5.lean, generated file Gen/Word2Fns.lean = namespace `GenW2`): more of src/util/basic.rs.
+     `compare_uint` (returns `std::cmp::Ordering` = Lean's `Ordering`; never panics), `is_greater_than_or_equal_uint`, the in-place ripples
+     `add_uint_inplace` / `sub_uint_inplace` (results: new contents of operand1, carry / borrow; including every out-of-bounds panic), the
+     multi-word modular `add_uint_mod` / `add_uint_mod_inplace` / `sub_uint_mod` (hypothesis = the calling convention `result.len() =
+     modulus.len()`: the model takes every length from the modulus, the code from the result buffer) and the 192-bit shifts
+     (`a_i < 2^64` = the word type: `(x << b) | (y >> (64 - b))` is the sum of the model only for a 64-bit `y`; the previous contents
+     `r0 r1 r2` of `result` are inputs of the generated function because every assignment to `result` is conditional, and irrelevant). -/
+theorem gen_compare_uint_eq (a b : List Nat) : GenW2.compare_uint a b = .ok (gq_ofInt (compareUint a b)) := HC.gq_compare_uint_eq a b
+theorem gen_is_greater_than_or_equal_uint_eq (a b : List Nat) :
+    GenW2.is_greater_than_or_equal_uint a b = .ok (geUint a b) := HC.gq_is_greater_than_or_equal_uint_eq a b
+theorem gen_add_uint_inplace_eq (a b : List Nat) : GenW2.add_uint_inplace a b = addUint a b a.length := HC.gq_add_uint_inplace_eq a b
+theorem gen_sub_uint_inplace_eq (a b : List Nat) : GenW2.sub_uint_inplace a b = subUint a b a.length := HC.gq_sub_uint_inplace_eq a b
+theorem gen_add_uint_mod_eq (a b m r : List Nat) (hr : r.length = m.length) : GenW2.add_uint_mod a b m r = addUintMod a b m :=
+  HC.gq_add_uint_mod_eq a b m r hr
+theorem gen_add_uint_mod_inplace_eq (a b m : List Nat) (hr : a.length = m.length) : GenW2.add_uint_mod_inplace a b m = addUintMod a b m :=
+  HC.gq_add_uint_mod_inplace_eq a b m hr
+theorem gen_sub_uint_mod_eq (a b m r : List Nat) (hr : r.length = m.length) : GenW2.sub_uint_mod a b m r = subUintMod a b m :=
+  HC.gq_sub_uint_mod_eq a b m r hr
+theorem gen_left_shift_u192_eq (a0 a1 a2 s r0 r1 r2 : Nat) (h0 : a0 < 2^64) (h1 : a1 < 2^64) :
+    (GenW2.left_shift_u192 a0 a1 a2 s r0 r1 r2 >>= fun p => pure [p.1, p.2.1, p.2.2]) = leftShiftU192 [a0, a1, a2] s :=
+  HC.gq_left_shift_u192_eq a0 a1 a2 s r0 r1 r2 h0 h1
+theorem gen_right_shift_u192_eq (a0 a1 a2 s r0 r1 r2 : Nat) (h0 : a0 < 2^64) (h1 : a1 < 2^64) (h2 : a2 < 2^64) :
+    (GenW2.right_shift_u192 a0 a1 a2 s r0 r1 r2 >>= fun p => pure [p.1, p.2.1, p.2.2]) = rightShiftU192 [a0, a1, a2] s :=
+  HC.gq_right_shift_u192_eq a0 a1 a2 s r0 r1 r2 h0 h1 h2
+/-- non-vacuity of the modular ties: 2^64 - 1 + 1 mod (2^64 - 1) on one limb goes through the carry branch -/
+example : GenW2.add_uint_mod [18446744073709551615] [1] [18446744073709551615] [0] = .ok [1] := by decide
 
 end HC.C08
